@@ -168,6 +168,56 @@ Theorem C17_any_history :
 Proof. intros. apply run_calls_post. Qed.
 Print Assumptions C17_any_history.
 
+(* --- 7b. listing (Dataset.prob_status on its own) changes nothing on disk, whatever the server answers *)
+Theorem C17_listing_inert :
+  forall sha srv name expected s0,
+  let sf := final (prob_status sha srv name expected s0) in
+  archive sf = archive s0 /\ index sf = index s0 /\ log sf = log s0.
+Proof. intros. exact (prob_status_keeps sha srv name expected (fun _ => false) s0). Qed.
+Print Assumptions C17_listing_inert.
+
+(* --- 7c. histories during which the dataset index is RE-PUBLISHED (`update`, or any rewrite of the index file)
+        between calls: [calls] pairs every call (install / download / list, own server, untar behaviour, attempts,
+        flags) with the checksum the index publishes AT THE TIME OF THAT CALL.  [news] are the events of each
+        call in call order.  Every archive ever extracted had the digest published when its call was made — never
+        that of an earlier or later publication —, on an unmarked dataset; marked at the end => marked at the
+        start or some call extracted an archive verified against ITS publication; other markers unchanged. *)
+Theorem C17_any_history_republished :
+  forall sha name (calls : list (string * call)) s0,
+  let sf := run_pub sha name calls s0 in
+  exists news : list (list event),
+    Forall2 (fun (ec : string * call) new =>
+               forall b m, In (EExtract b m) new -> sha b = fst ec /\ m = false) calls news /\
+    log sf = List.concat (rev news) ++ log s0 /\
+    (is_installed name sf = true ->
+       is_installed name s0 = true \/
+       exists e c new b, In (e, c, new) (combine calls news) /\ In (EExtract b false) new /\ sha b = e) /\
+    (forall m, m <> name -> (In m (index sf) <-> In m (index s0))).
+Proof. intros. apply run_pub_post. Qed.
+Print Assumptions C17_any_history_republished.
+
+(* an unchanged publication gives back the plain histories of theorem 7 *)
+Theorem C17_republished_constant :
+  forall sha name e (calls : list call) s0,
+  run_pub sha name (List.map (fun c => (e, c)) calls) s0 = run_calls sha name e calls s0.
+Proof. intros. apply run_pub_const. Qed.
+Print Assumptions C17_republished_constant.
+
+(* non-vacuity: the index publishes "good" (sha = identity), the dataset is listed; the index is re-published
+   with "new!"; the server still delivers "good" twice: reported corrupted, nothing extracted, nothing marked;
+   then it delivers "new!": installed, and only "new!" was extracted *)
+Definition const_srv (z : Z) (b : string) : server := fun _ => mkResp false (PSize z) b false.
+Definition ex_call k srv force := mkCall k srv (fun _ => false) 2 force false.
+Definition ex_republished := [("good", ex_call KList (const_srv 4 "good") false);
+                              ("new!", ex_call KInstall (const_srv 4 "good") false);
+                              ("new!", ex_call KInstall (const_srv 4 "new!") false)].
+Example C17_example_republished :
+  let s2 := run_pub (fun b => b) "ds" (firstn 2 ex_republished) (mkSt None [] [] []) in
+  let s3 := run_pub (fun b => b) "ds" ex_republished (mkSt None [] [] []) in
+  (archive s2, index s2, log s2) = (Some "good", [], []) /\
+  (archive s3, index s3, log s3) = (None, ["ds"], [EUpgrade true; EExtract "new!" false]).
+Proof. vm_compute. split; reflexivity. Qed.
+
 (* --- 8. the guarantee is not bought by refusing everything: against a server that tells the true
         size and honours Range, from EVERY prior archive state (none, partial, corrupt of any size,
         complete) a forced or first installation ends installed, having extracted verified bytes *)
@@ -222,4 +272,18 @@ Lemma C17_weak_gate_refuted :
 Proof.
   exists (fun _ => mkResp false (PSize 4) "g" false), (mkSt None [] [] []), "gg", false.
   vm_compute. split; [auto|]. split; [discriminate|reflexivity].
+Qed.
+
+(* --- theorem 7c can fail: an InstallDir that caches the first parse of the index (run_pub_cached) verifies a later
+       call against the withdrawn checksum: "old" is extracted and marked while the index publishes "new" *)
+Lemma C17_cached_index_refuted :
+  exists (calls : list (string * call)) e c b m,
+    nth_error calls 1 = Some (e, c) /\
+    In (EExtract b m) (log (run_pub_cached (fun b => b) "ds" calls (mkSt None [] [] []))) /\ b <> e /\
+    is_installed "ds" (run_pub_cached (fun b => b) "ds" calls (mkSt None [] [] [])) = true /\
+    log (run_pub (fun b => b) "ds" calls (mkSt None [] [] [])) = [].
+Proof.
+  exists [("old", ex_call KList (const_srv 3 "old") false); ("new", ex_call KInstall (const_srv 3 "old") false)],
+         "new", (ex_call KInstall (const_srv 3 "old") false), "old", false.
+  vm_compute. split; [reflexivity|]. split; [auto|]. split; [discriminate|]. split; reflexivity.
 Qed.
